@@ -82,3 +82,9 @@ func C18Forward(pl *C18Player, id int64) {
 func C18ClientPlayHandle(pl *C18Player, id int64) {
 	(&clientPlaySessionHandler{player: pl.p}).handleKeepAlive(&packet.KeepAlive{RandomID: id})
 }
+
+// C18LockConn takes the serverConnection's mutex (as connect/disconnect do) and returns its unlock.
+func C18LockConn(s *C18ServerConn) (unlock func()) {
+	s.sc.mu.Lock()
+	return s.sc.mu.Unlock
+}
